@@ -86,7 +86,12 @@ class Check:
         ap.add_argument("--cases", type=int)
         ap.add_argument("--budget", type=float)
         ap.add_argument("--no-confirm", action="store_true")
+        ap.add_argument("--worker", nargs=2, metavar=("IN", "OUT"))
         a = ap.parse_args(argv)
+        if a.worker:
+            return self.worker_main(a.worker[0], a.worker[1])
+        if os.environ.get("VERIF_REPLAY_ENV") == "1":
+            self._ballast = [object() for _ in range(int(os.environ.get("VERIF_HEAP", "0")))]  # before the compiler is imported
         self.boot()
         if a.replay:
             return self.do_replay(a.replay)
@@ -102,8 +107,12 @@ class Check:
         t0 = time.time()
         descs = [self.gen_case(seed, i, tier) for i in range(cfg["cases"])]
         gen_s = time.time() - t0
-        pool = C.ForkPool(timeout=cfg["timeout"])
-        results = pool.run(self._guarded, descs, deadline=t0 + cfg["budget"])
+        envs = self.interpreters(tier, seed)
+        if envs:
+            results = self.run_in_interpreters(descs, envs, cfg, t0)
+        else:
+            pool = C.ForkPool(timeout=cfg["timeout"])
+            results = pool.run(self._guarded, descs, deadline=t0 + cfg["budget"])
         agg = self.aggregate(descs, results)
         agg["gen_s"] = gen_s
         viols = self.triage(agg, confirm=not a.no_confirm)
@@ -122,6 +131,68 @@ class Check:
 
     def _guarded(self, desc):
         return self.run_case(desc)
+
+    # ---- several interpreters (World P seams that are fixed at interpreter start: hash seed, heap layout)
+    def interpreters(self, tier, seed):
+        """-> list of dict(PYTHONHASHSEED=int, heap=int) or None to run in this interpreter only."""
+        return None
+
+    def run_in_interpreters(self, descs, envs, cfg, t0):
+        import pickle
+        import tempfile
+
+        n = len(envs)
+        workers = max(1, C.ForkPool().workers // n)
+        tmpd = tempfile.mkdtemp(prefix="verif-w-")
+        procs = []
+        for k, env in enumerate(envs):
+            idx = list(range(k, len(descs), n))
+            for i in idx:
+                if isinstance(descs[i], dict):
+                    descs[i]["env"] = dict(env)  # the replay file carries the interpreter seams
+            fin, fout = os.path.join(tmpd, f"in{k}.pkl"), os.path.join(tmpd, f"out{k}.pkl")
+            with open(fin, "wb") as f:
+                pickle.dump(dict(descs=[descs[i] for i in idx], env=env, timeout=cfg["timeout"], deadline=t0 + cfg["budget"], workers=workers), f)
+            e = dict(os.environ, PYTHONHASHSEED=str(env["PYTHONHASHSEED"]), VERIF_NO_REEXEC="1", VERIF_HEAP=str(env.get("heap", 0)))
+            cmd = ["setarch", "x86_64", "-R", sys.executable, os.path.join(VERIF, "vcheck"), self.reg_name(), "--worker", fin, fout]
+            procs.append((idx, fout, subprocess.Popen(cmd, env=e, stdout=subprocess.PIPE, stderr=subprocess.STDOUT, text=True), env))
+        results = [None] * len(descs)
+        for idx, fout, p, env in procs:
+            try:
+                out, _ = p.communicate(timeout=cfg["budget"] + cfg["timeout"] + 120)
+            except subprocess.TimeoutExpired:
+                p.kill()
+                out = "worker timeout"
+            if os.path.exists(fout):
+                with open(fout, "rb") as f:
+                    res = pickle.load(f)
+                for i, r_ in zip(idx, res):
+                    if r_ is not None and r_[0] == "ok" and isinstance(r_[1], dict):
+                        r_[1].setdefault("counters", {})["interp_hashseed_%s_heap_%s" % (env["PYTHONHASHSEED"], env.get("heap", 0))] = 1
+                    results[i] = r_
+            else:
+                for i in idx:
+                    results[i] = ("died", "worker interpreter produced no result: " + (out or "")[-300:])
+        import shutil
+
+        shutil.rmtree(tmpd, ignore_errors=True)
+        return results
+
+    def reg_name(self):
+        return self.pid
+
+    def worker_main(self, fin, fout):
+        import pickle
+
+        heap = int(os.environ.get("VERIF_HEAP", "0"))
+        self._ballast = [object() for _ in range(heap)]  # seeded heap perturbation before the compiler is imported
+        job = pickle.load(open(fin, "rb"))
+        self.boot()
+        pool = C.ForkPool(workers=job["workers"], timeout=job["timeout"])
+        res = pool.run(self._guarded, job["descs"], deadline=job["deadline"])
+        with open(fout, "wb") as f:
+            pickle.dump(res, f)
+        return 0
 
     def aggregate(self, descs, results):
         agg = dict(ran=0, inconclusive=0, inconclusive_kinds={}, distinct=set(), counters={}, samples=[], viol=[], evaluations=0,
@@ -267,6 +338,12 @@ class Check:
         rec = json.load(open(path))
         desc = rec["case"]
         sig = rec["signature"]
+        env = desc.get("env") if isinstance(desc, dict) else None
+        if env and os.environ.get("VERIF_REPLAY_ENV") != "1":
+            # re-create the interpreter seams of the failing run: hash seed, ASLR off, heap perturbation
+            e = dict(os.environ, PYTHONHASHSEED=str(env["PYTHONHASHSEED"]), VERIF_NO_REEXEC="1", VERIF_HEAP=str(env.get("heap", 0)), VERIF_REPLAY_ENV="1")
+            p = subprocess.run(["setarch", "x86_64", "-R", sys.executable, os.path.join(VERIF, "vcheck"), self.reg_name(), "--replay", path], env=e)
+            return p.returncode
         pool = C.ForkPool(workers=1, timeout=600)
         (st, val), = pool.run(self._guarded, [desc])
         if st != "ok":
